@@ -162,6 +162,7 @@ VH_NOINSTR int main(int argc, char** argv) {
   const int k = atoi(argv[1]);
   vh_parse(argv[4]);
   fiber_manager_init(k);
+  vh_rt_prepare(); /* run queues named, main fiber registered: the runtime model can follow this log too */
   vr_reg(vw_sleepers_addr(), 8, "root");
   vr_reg(vw_ttc_addr(), 8, "ttc");
   vr_reg(vw_sleep_lock_addr(), 8, "lk");
